@@ -3,7 +3,7 @@
 
 struct MSess { bool complete; uint64_t last_ms; };
 using Key = std::pair<uint64_t, uint16_t>;
-static Key key_of(int k) { return {0x02AA00000000ULL + (uint64_t)(k % 10), (uint16_t)(k / 10 ? 0x0202 : 5)}; }   // 20 keys
+static Key key_of(int k) { return {0x02AA00000000ULL + (uint64_t)(k % 10), (uint16_t)(k / 10 ? 0x0202 : 0)}; }   // 20 keys: 10 addresses x generations {0, 0x0202}
 
 struct Mon {   // send_hello monitor
     bool in_tick = false;
